@@ -3,6 +3,7 @@ package props
 import (
 	"bytes"
 	"fmt"
+	"net/http"
 	"strings"
 
 	restful "github.com/emicklei/go-restful/v3"
@@ -72,8 +73,8 @@ func genC13(x *Ctx) *c13Scen {
 	case 3:
 		sc.Provider = "lifo"
 	}
-	sc.entry = tp.G(2)
-	sc.Entry = entryName(sc.entry)
+	sc.entry = tp.G(3) // 2: the container's ServeMux used directly as the http.Handler
+	sc.Entry = []string{"ServeHTTP", "Dispatch", "Mux"}[sc.entry]
 	sc.Recover = tp.Bool()
 	sc.Preempt = []int{300, 100, 500, 20}[tp.G(4)]
 	nClients := 4
@@ -83,7 +84,7 @@ func genC13(x *Ctx) *c13Scen {
 		maxPayload = 70000
 	}
 	id := 0
-	kinds := []string{"get", "get", "post-gzip", "early-close", "post-trunc", "notfound", "panic", "post-deflate", "client-gone"}
+	kinds := []string{"get", "get", "post-gzip", "early-close", "post-trunc", "notfound", "panic", "post-deflate", "client-gone", "plain"}
 	aes := []string{"gzip", "deflate", "gzip", "deflate, gzip", ""}
 	tp.Repeat(2, nClients, 600, func(int) {
 		var reqs []*c13Req
@@ -204,6 +205,21 @@ func runC13(x *Ctx) {
 		resp.Write([]byte("tok=" + r.readTok))
 	}))
 	c.Add(ws)
+	// a plain http.Handler: through the ServeMux directly it is the Handle wrapper that encodes
+	c.Handle("/plain/", http.HandlerFunc(func(rw http.ResponseWriter, hr *http.Request) {
+		t := sim.Cur()
+		r := byID[ReqID(hr)]
+		off := 0
+		for i := 0; off < len(r.payload); i++ {
+			n := r.Chunks[i%len(r.Chunks)]
+			if off+n > len(r.payload) {
+				n = len(r.payload) - off
+			}
+			rw.Write(r.payload[off : off+n])
+			off += n
+			t.Y(sim.SiteHandler)
+		}
+	}))
 
 	for ci, cl := range sc.Clients {
 		cl := cl
@@ -222,6 +238,8 @@ func runC13(x *Ctx) {
 					hr = NewReq("GET", "/p/early", hdr, nil, 0, r.ID)
 				case "notfound":
 					hr = NewReq("GET", "/p/none", hdr, nil, 0, r.ID)
+				case "plain":
+					hr = NewReq("GET", "/plain/x", hdr, nil, 0, r.ID)
 				case "post-gzip", "post-trunc", "post-deflate":
 					hdr["Content-Type"] = "application/json"
 					hdr["Content-Encoding"] = "gzip"
@@ -240,7 +258,14 @@ func runC13(x *Ctx) {
 					// the client goes away: every underlying write from #WFailAt on fails
 					r.w.FaultMode, r.w.FailAt = sim.WFaultFail, r.WFailAt
 				}
-				r.escaped = Serve(c, sc.entry, r.w, hr)
+				if sc.entry == 2 {
+					func() {
+						defer func() { r.escaped = recover() }()
+						c.ServeMux.ServeHTTP(r.w, hr)
+					}()
+				} else {
+					r.escaped = Serve(c, sc.entry, r.w, hr)
+				}
 				if r.w.Fired > 0 {
 					t.Count("fault-wfail")
 				}
@@ -292,6 +317,15 @@ func runC13(x *Ctx) {
 				x.Count("encoded-responses")
 			}
 			switch r.Kind {
+			case "plain":
+				// unreachable through Dispatch (no mux): the router answers 404
+				if sc.entry == EntryDispatch {
+					if r.w.Status() != 404 {
+						x.Violate("status", "request %d: plain handler path through Dispatch answered %d", r.ID, r.w.Status())
+					}
+				} else if !bytes.Equal(got, r.payload) {
+					x.Violate("foreign-payload", "request %d (plain): decoded body (%d bytes, %q) is not its own payload (%d bytes)", r.ID, len(got), clip(string(got), 40), len(r.payload))
+				}
 			case "get", "early-close":
 				if !bytes.Equal(got, r.payload) {
 					x.Violate("foreign-payload", "request %d (%s): decoded body (%d bytes, %q) is not its own payload (%d bytes)", r.ID, r.Kind, len(got), clip(string(got), 40), len(r.payload))
